@@ -32,5 +32,5 @@ func (Unimplemented) mustEmbedUnimplemented() {}
 type Impl struct{ Tag string }
 
 func (*Impl) Ping(context.Context, *emptypb.Empty) (*wrapperspb.StringValue, error) { return nil, nil }
-func (*Impl) Watch(*emptypb.Empty, grpc.ServerStream) error                        { return nil }
-func (*Impl) mustEmbedUnimplemented()                                              {}
+func (*Impl) Watch(*emptypb.Empty, grpc.ServerStream) error                         { return nil }
+func (*Impl) mustEmbedUnimplemented()                                               {}
